@@ -1,9 +1,11 @@
 """C04 - names resolve to the innermost visible binding and closures capture it.
 
 Bounded-exhaustive scope skeletons: all sequences / nestings of at most N items from
-  L  let x = <fresh>         U  push(OBS, x)          A  x = <fresh>
+  L  let x = <fresh>         U  push(OBS, [x, x])     A  x = <fresh>
   B  { ... }                 F  fn f() { ... } + call now + call again at the end of the block
   I  if true { ... }
+each at top level (bindings are globals) and as the body of a function (bindings are locals,
+inner functions are closures; x is then also tried as a parameter),
 with one contended name x (so every let shadows, every block end un-shadows, every use
 picks a binding) plus seeded random programs with shadowing enabled.  A use with no visible
 binding must be a compile error.  Every program runs through the real pipeline; TLC
@@ -62,7 +64,9 @@ def build(items, en, fdepth, declared_here):
             out.append(let("x", I(en.fresh())))
             declared_here = True
         elif kind == "U":
-            out.append(obs(ident("x")))
+            # two reads in one statement: each must pick the binding (a second read of a captured name
+            # takes another path through the symbol table than the first)
+            out.append(obs({"t": "arr", "es": [ident("x"), ident("x")]}))
         elif kind == "A":
             if fdepth > 0 and not declared_here:
                 # assigning a captured variable inside a closure is unspecified: read it instead
@@ -154,6 +158,15 @@ def run(rep, tier, seed):
         prog = prog + build(sk, en, 0, True)
         items.append({"id": "s%d" % n, "prog": prog, "tag": "skeleton"})
         n += 1
+        # the same skeleton as the body of a function: the bindings are locals of an activation, blocks are
+        # nested local scopes and the functions inside are closures capturing them
+        en = Enum()
+        inner = build(sk, en, 1, True)
+        pre = [OBS_DECL, let("x", I(900))] if n % 3 == 0 else [OBS_DECL]
+        params = ["x"] if n % 3 == 1 else []
+        wprog = pre + [fndef("w", params, inner + [expr(I(0))]), obs(call("w", *([I(800)] if params else [])))]
+        items.append({"id": "s%d" % n, "prog": wprog, "tag": "skeleton-in-function"})
+        n += 1
     for tag, prog in closure_programs():
         items.append({"id": "c%d" % n, "prog": prog, "tag": tag})
         n += 1
@@ -169,7 +182,8 @@ def run(rep, tier, seed):
     rep.cov["distinct_nontrivial"] = len({it["src"] for it in items})
     rep.cov["rule"] = ("all scope skeletons with at most %d items from {let x, use x, assign x, block, function (called "
                        "at once and again at the end of its block), if-block} nested to depth 2, with and without an "
-                       "outer binding of x, that contain at least one use / assignment / function; hand-written closure "
+                       "outer binding of x, that contain at least one use / assignment / function, each at top level and as "
+                       "the body of a function (x unbound outside / global / parameter); hand-written closure "
                        "families; seeded random programs with shadowing; distinct = distinct source texts" % nmax)
     rep.cov["exhaustive"] = False
     for it in items[5:7]:
